@@ -297,6 +297,10 @@ def run_paths(harness, solver, prefixes, opts, budget_paths, budget_s):
             stats['panics'] += 1
             if len(res['panic_samples']) < 3:
                 res['panic_samples'].append({'msg': p.msg, 'where': p.where, 'decisions': list(ctx.decisions)})
+            # a panic terminator reached in the code under test (or a harness-level "cannot happen") is a violation of
+            # every property checked here: no check expects one on the unchanged tree (C18 catches its own)
+            ctx.prove(False, 'panic in the code under test: ' + str(p.msg)[:200], getattr(ctx, 'panic_witness', None),
+                      {'class': 'panic', 'where': str(p.where)[:200]})
         except Unsupported as e:
             res['error'] = f'unsupported: {e}\n' + traceback.format_exc()[-3000:]
             solver.pop()
